@@ -97,14 +97,14 @@ impl AnySink {
                 // the queuing sink answers for the queue; the wrapped sink's result is observed through its stats
                 let r = q.emit(m);
                 let t0 = Instant::now();
-                while q.drained() < q.submitted() && t0.elapsed() < Duration::from_secs(2) {
+                while q.drained() < q.submitted() && t0.elapsed() < Duration::from_secs(10) {
                     thread::yield_now();
                 }
                 // wait until the worker is back in recv (the wrapped emit returned and updated its statistics): every
                 // other thread of the process asleep, seen twice in a row - not a fixed time, which fails under load
                 let t1 = Instant::now();
                 let mut calm = 0;
-                while calm < 2 && t1.elapsed() < Duration::from_millis(500) {
+                while calm < 2 && t1.elapsed() < Duration::from_secs(3) {
                     if crate::queue::others_asleep() {
                         calm += 1;
                     } else {
@@ -187,7 +187,18 @@ fn run_ops(sink: AnySink, recv: &mut Recv, ops: &str, queued: bool) -> String {
     let st = sink.stats();
     drop(sink);
     if queued {
-        thread::sleep(Duration::from_millis(20));
+        // the last handle is gone: the worker takes the stop marker, drops the wrapped sink (whose Drop flushes what
+        // is buffered) and exits.  Wait until every other thread is asleep or gone - not a fixed time
+        let t1 = Instant::now();
+        let mut calm = 0;
+        while calm < 3 && t1.elapsed() < Duration::from_secs(5) {
+            if crate::queue::others_asleep() {
+                calm += 1;
+            } else {
+                calm = 0;
+            }
+            thread::sleep(Duration::from_micros(300));
+        }
     }
     recv.drain(&mut got, 30);
     if let Recv::Unix(_, p) = recv {
